@@ -2,6 +2,7 @@ import astload
 import eigencw
 import hooks as nvhooks
 import rss_smt
+import cluster_spec
 from core import Fn, Target, VC
 
 DRV = 'drivers/inst_wlearner.cpp'
@@ -678,6 +679,7 @@ def build(tier):
                                            acc_fn('acc_update', AFFC, 'update', 'accumulator_t::update', select=npar(2))], AH))
     for nm, rt in (('rss_zero', 'double'), ('rss_constant', 'double'), ('fit_constant', 'struct nv_ev')):
         targets.append(Target(f'acc_{nm}', [acc_fn(f'acc_{nm}', ACC_CPP, nm, f'accumulator_t::{nm}', ret=rt)], AH))
+    targets.append(cluster_spec.cluster_target())
     MH = 'specs/C10/trymerge.h'
     t = try_merge_fns()
     targets.append(Target('base_try_merge', [t['base']], MH))
@@ -710,6 +712,7 @@ def build(tier):
             'minimum RSS of ONE candidate, over the reals, on the real scoring code walked at a generic output coefficient (symbolic number of outputs; specs/C10/rss_smt.py, back end B): stump cache_t::score (with x0_/r1_/r2_neg/pos, output_neg/pos and the file-local ::score walked at their calls): the rss handed to make_score is SUM_o [min-RSS(left) + min-RSS(right)] + missing_rss with min-RSS = r2 - r1^2/x0 per side and output, the stored coefficients output_neg / output_pos are the group means r1/x0, n = total + missing count; hinge cache_t::score_neg / score_pos (with beta_neg/pos, beta0, the twelve moment accessors and ::beta / ::score walked): rss = SUM_o [(r2 - B^2/D)(active side) + r2(inactive side)] + missing_rss with B = rx - t r1, D = x2 - 2 t x1 + t^2 x0, the stored slope is B/D; table cache_t::score(bin) = SUM_o (r2 - r1^2/x0); every division executed is defined under x0 > 0 resp. D > 0; lemmas: for every constant c resp. slope b the RSS r2 - 2 c r1 + x0 c^2 resp. r2 - 2 b B + b^2 D is >= that minimum, attained exactly at r1/x0 resp. B/D (unique for the constant); induction over the samples entered: these quadratic forms ARE the residual sums of squares SUM (res - c)^2 resp. SUM (res - b (x - t))^2 of the entries accumulated by accumulator_t::update (base: cleared accumulator; step: one update, as proved in accum.h), D = SUM (x - t)^2, and the moments of total minus left are the moments of the entries not in left',
             'minimum over the candidates of a feature (stump, hinge sweeps; ghost cut): EVERY boundary between two different consecutive sorted values is evaluated exactly once (hinge: once per direction) and no other cut is; the score the cache ends with is <= every finite score evaluated there, <= the score it started with (so it stays the best over the features of the thread), is a number (not NaN), and is the old score or the score of a stored candidate',
             'score_dense: the rss is accumulated from exactly one reduction per bin, the one of the ghost bin being SUM_o (r2 - r1^2/x0) of that bin',
+            'accumulator_t::cluster() (k-split tables; symbolic number of bins >= 1; ghost bins b, b2, ghost levels L < L2): rows are built in order, row t as a copy of the finished row t - 1, and a finished row is never read or written again; cluster_id(L, b) is in [0, bins - L) -- every bin belongs to exactly one cluster of its level, below the level\'s number of clusters bins - L -- and cluster_id(0, b) == b; levels are nested: two bins in one cluster at level L are in one cluster at level L2; the merged pair satisfies 0 <= c1 < c2 < #clusters whatever the float distances are; every access of cluster_x0 / r1 / r2 / rx / id has both leading indices in [0, bins); all seven loops terminate (decreases clauses)',
             'dtree do_predict: through wlearner_t::split (compatibility check, then do_split) the row i of outputs receives exactly one update, the m_tables row of the group split() reports for samples(i), and none if there is no group; depth 1: the stump_do_predict contract',
         ],
         'not_decided': [
@@ -717,7 +720,7 @@ def build(tier):
             'hinge score_neg / score_pos hand make_score n = the ACTIVE-side count + missing count, not the number of samples (the stump hands total + missing): irrelevant for the RSS criterion of the property, changes AIC / AICc / BIC of hinge candidates (observed while proving rss/stump/count; recorded, not a C10 violation)',
             'termination of the breadth-first walks of dtree do_split / do_fit; the scores, samples and stopping rule of dtree do_fit (stump fits are opaque)',
             'the count in missing_cnt (a float sum of 1.0); the values of scores / coefficients (uninterpreted)',
-            'accumulator_t::cluster() and table cache_t::score_ksplit (k-split clustering over 2-D / 5-D tensors), cache_t::update (label -> bin), the float accumulation of rss inside score_kbest (which gains are added is not tracked, only what is stored); in score_dense that the reduction results are the operands of the += chain (one reduction per bin with the right summand is proved, the chain of float additions over a symbolic number of bins is not)',
+            'accumulator_t::cluster(): that level L uses ALL indices below bins - L (surjectivity), the ghost membership of the moment sums (the cell (L, c) of cluster_x0 / r1 / r2 holds the moments of exactly the bins with cluster_id(L, .) == c: the model is written up in specs/C10/cluster.h but only index discipline is checked on those tensors), which pair is merged (float distances), bins == 0 (a feature whose values are all missing reaches cluster_x0.array(0) of an empty tensor: assert-only, the row is empty); table cache_t::score_ksplit (consumes cluster(): hash2tables = cluster_id row ic must address the bins - ic rows of rx.slice(0, ksplit): follows from the range clause above but score_ksplit itself is not under contract), cache_t::update (label -> bin), the float accumulation of rss inside score_kbest (which gains are added is not tracked, only what is stored); in score_dense that the reduction results are the operands of the += chain (one reduction per bin with the right summand is proved, the chain of float additions over a symbolic number of bins is not)',
             'numeric value of the scaled coefficients (Eigen *= is recorded, not computed); sums of merged / predicted coefficients are exact only as uninterpreted IEEE terms',
             'nano::find for multi-label values (detail::hash over the row) stays an assumed contract',
             'native replay only for the dtree groups() finding (replay/C10_replay.cpp); other counterexamples would be (value, threshold, index) tuples',
@@ -749,6 +752,7 @@ def build(tier):
             'single_feature_wlearner_t::vector(k) is m_tables.vector(k), tables() is m_tables (inline accessors in single.h); feature() is extracted',
             'rss_smt (back end B): double treated as real; finite sums are linear and determined by their summand (the rss is opened at one generic output); accumulator_t accessors x0/x1/x2/r1/rx/r2 are opaque inputs (what they hold: accum.h); hinge m_beta0 is the zero array (checked syntactically: only declared, constructed, zeroed in the constructor, read by beta0()); ::nano::size(tdims()) is the number of outputs (<= 2^31), counts are in [0, 2^62]; both sides of a cut non-empty (fit.h) resp. the normal-equation denominator positive',
             'sweeps: cache_t::m_score is not NaN when a sweep starts (default member initialiser no_fit_score(); preserved by every sweep: proved)',
+            'cluster(): tensors abstracted to their two leading extents (index checks) and, for cluster_id, the cells of two ghost bins in the row being built plus their values frozen at two ghost levels; any other cell is an arbitrary value (stable between two consecutive accesses of the same cell); Eigen row statements on the moment tensors are recorded for their indices only; m_r1.dims()[0] == bins() >= 1',
             'lambda captures by reference denote the enclosing function\'s variables of the same name (closure objects are modelled as explicit argument lists / capture structs)',
         ],
         'trusted': [],
